@@ -27,6 +27,9 @@ type Knobs struct {
 	Budget     int  // max number of structs per generated value
 	PlainText  bool // only unremarkable text (no escapes / control characters)
 	Shared     bool // the same pointer may be embedded at two places
+	// SmallNumbers keeps counts and sizes small (used by the process warm-up,
+	// which must not depend on how the library treats large numbers)
+	SmallNumbers bool
 }
 
 // DrawKnobs draws a knob set from the tape.
@@ -412,7 +415,20 @@ func (g *G) setField(f reflect.Value, sf reflect.StructField, depth int) {
 		}
 		f.Set(reflect.ValueOf(e))
 	case ft.Kind() == reflect.Uint || ft.Kind() == reflect.Uint64:
-		f.SetUint(uint64(1 + g.T.Draw(1000)))
+		// counts and sizes: mostly small, sometimes large enough that one damaged high byte of
+		// their encoding turns them into millions
+		x := g.T.Draw(4)
+		if g.K.SmallNumbers {
+			x = 3
+		}
+		switch x {
+		case 0:
+			f.SetUint(uint64(65536 + g.T.Draw(1<<20)))
+		case 1:
+			f.SetUint(uint64(1<<24 + g.T.Draw(1<<24)))
+		default:
+			f.SetUint(uint64(1 + g.T.Draw(1000)))
+		}
 	case ft.Kind() == reflect.Int64 || ft.Kind() == reflect.Int:
 		x := int64(1 + g.T.Draw(100000))
 		if g.T.Bool(1, 8) {
